@@ -64,7 +64,7 @@ def main():
             parts = line.split()
             if len(parts) >= 4 and parts[0] == "RESULT":
                 key = parts[1] + "/" + os.path.basename(parts[2])[:-5] if parts[2].endswith(".diff") and "incoming" in parts[2] else parts[1] + "/" + os.path.basename(os.path.dirname(parts[2]))
-                verdict[key] = " ".join(parts[3:])
+                verdict[key] = parts[3]
     rows = []
     for pid in sorted(os.listdir(INC)):
         for patch in sorted(glob.glob(os.path.join(INC, pid, "m*.diff"))):
